@@ -1,6 +1,8 @@
 import PdtVerif.Lemmas.PadChunk
 import PdtVerif.Lemmas.PadChunkTensor
 import PdtVerif.Lemmas.PadChunkRounding
+import PdtVerif.Lemmas.PadChunkOrder
+import PdtVerif.Lemmas.PadChunkFloat
 /-!
 # C09 — variable-length padding and chunking equal per-sequence pad-and-slice
 
@@ -231,6 +233,159 @@ theorem C09_masked_nonvacuous :
   · rw [C09_masked (-1) 4 _ hwf]
     decide
   · exact C09_masked_count 4 ⟨[0, 3, 6, 9], [true, false, true, true]⟩ (hwf _ (by simp))
+
+/-! ### the compaction keeps the order, and is stable under masked-out additions -/
+
+/-- **C09_masked_positions**: `trueIdx mask` lists exactly the positions of the true cells, each once, in
+strictly increasing order; there are `count true` of them. (What "the `j`-th true cell" means below.) -/
+theorem C09_masked_positions (mask : List Bool) :
+    (trueIdx mask).Pairwise (· < ·) ∧ (trueIdx mask).length = mask.count true
+      ∧ ∀ k, k ∈ trueIdx mask ↔ mask[k]? = some true := by
+  refine ⟨trueIdxFrom_pairwise 0 mask, trueIdxFrom_length 0 mask, ?_⟩
+  intro k
+  simpa [trueIdx] using mem_trueIdxFrom 0 mask k
+
+/-- **C09_masked_order** — "the selected elements IN ORDER". For every batch of `(T)`-long rows and masks
+(any `N`, any `T`), `pad_masked_sequence` succeeds and for every row `n`:
+* the reported length is the number of true cells, at most `T`, and the row keeps its length `T`;
+* the valid prefix `out[n][:lens[n]]` is literally `filter` by the mask (on the zipped list) — and therefore
+* a SUBLIST of `x[n]`: its elements are elements of `x[n]` in their original relative order (an output whose
+  selected elements are permuted — an unstable sort of the mask — is not a sublist when the elements differ);
+* element-wise, the documentation's wording: `out[n][j] = x[n][i]` for `i` the position of the `j`-th true
+  cell (`trueIdx`, strictly increasing by `C09_masked_positions`);
+* every cell from `lens[n]` on holds the pad value. -/
+theorem C09_masked_order (value : α) (T : Nat) (rows : List (MaskRow α)) (h : ∀ r ∈ rows, r.Wf T) :
+    ∃ out lens, padMaskedCore value T rows = .ok (out, lens)
+      ∧ out.length = rows.length ∧ lens.length = rows.length
+      ∧ ∀ (n : Nat) (hn : n < rows.length) (ho : n < out.length) (hl : n < lens.length),
+          lens[n] = (rows[n]).mask.count true ∧ lens[n] ≤ T ∧ (out[n]).length = T
+          ∧ (out[n]).take lens[n]
+              = (((rows[n]).mask.zip (rows[n]).x).filter (fun p => p.1)).map (fun p => p.2)
+          ∧ ((out[n]).take lens[n]).Sublist (rows[n]).x
+          ∧ (∀ j, j < lens[n] →
+              (out[n])[j]? = ((trueIdx (rows[n]).mask)[j]?).bind (fun i => (rows[n]).x[i]?))
+          ∧ (∀ j, lens[n] ≤ j → j < T → (out[n])[j]? = some value) := by
+  refine ⟨_, _, C09_masked value T rows h, by simp, by simp, ?_⟩
+  intro n hn ho hl
+  obtain ⟨hx, hm⟩ := h rows[n] (List.getElem_mem hn)
+  have hc : (compact (rows[n]).mask (rows[n]).x).length = (rows[n]).mask.count true :=
+    compact_length _ _ (by omega)
+  have hcT : (rows[n]).mask.count true ≤ T := by rw [← hm]; exact List.count_le_length
+  simp only [List.getElem_map]
+  have htake : (compact (rows[n]).mask (rows[n]).x
+      ++ List.replicate (T - (compact (rows[n]).mask (rows[n]).x).length) value).take
+        (compact (rows[n]).mask (rows[n]).x).length = compact (rows[n]).mask (rows[n]).x :=
+    List.take_left' rfl
+  refine ⟨hc, by omega, by simp; omega, ?_, ?_, ?_, ?_⟩
+  · rw [htake]; rfl
+  · rw [htake]; exact compact_sublist _ _
+  · intro j hj
+    rw [List.getElem?_append_left hj]
+    have := compact_getElem?_from 0 (rows[n]).mask (rows[n]).x (by omega) j
+    simpa [trueIdx] using this
+  · intro j hj hjT
+    rw [List.getElem?_append_right hj, List.getElem?_replicate]
+    simp
+    omega
+
+/-- **C09_masked_concat**: compaction is a homomorphism for aligned concatenation along the sequence
+dimension. If every row is the concatenation of a `T1`-long part and a `T2`-long part (data and mask cut
+at the same place), the output row is the compaction of the first part, then the compaction of the second
+part, then the pad value; the reported length is the sum. -/
+theorem C09_masked_concat (value : α) (T1 T2 : Nat) (rows : List (MaskRow α × MaskRow α))
+    (h1 : ∀ p ∈ rows, p.1.Wf T1) (h2 : ∀ p ∈ rows, p.2.Wf T2) :
+    padMaskedCore value (T1 + T2) (rows.map (fun p => ⟨p.1.x ++ p.2.x, p.1.mask ++ p.2.mask⟩))
+      = .ok (rows.map (fun p => compact p.1.mask p.1.x ++ compact p.2.mask p.2.x
+                ++ List.replicate
+                    (T1 + T2 - ((compact p.1.mask p.1.x).length + (compact p.2.mask p.2.x).length)) value),
+             rows.map (fun p => (compact p.1.mask p.1.x).length + (compact p.2.mask p.2.x).length)) := by
+  rw [C09_masked value (T1 + T2)]
+  · simp only [List.map_map]
+    congr 2
+    · apply List.map_congr_left
+      intro p hp
+      obtain ⟨hx1, hm1⟩ := h1 p hp
+      simp only [Function.comp, compact_append _ _ _ _ (hm1.trans hx1.symm), List.length_append]
+    · apply List.map_congr_left
+      intro p hp
+      obtain ⟨hx1, hm1⟩ := h1 p hp
+      simp only [Function.comp, compact_append _ _ _ _ (hm1.trans hx1.symm), List.length_append]
+  · intro r hr
+    simp only [List.mem_map] at hr
+    obtain ⟨p, hp, rfl⟩ := hr
+    obtain ⟨hx1, hm1⟩ := h1 p hp
+    obtain ⟨hx2, hm2⟩ := h2 p hp
+    simp [MaskRow.Wf, hx1, hm1, hx2, hm2]
+
+/-- **C09_masked_stable**: compaction commutes with appending masked-out elements. Lengthen every sequence
+by `k` further elements (`ext r`, anything) whose mask cells are false: the call on the lengthened batch
+returns the old output rows, each followed by `k` more pad values, and the same lengths. (With
+`C09_masked_concat` the same holds for masked-out elements put in front or in between: a part whose mask is
+all false compacts to nothing, `compact_replicate_false`.) -/
+theorem C09_masked_stable (value : α) (T k : Nat) (rows : List (MaskRow α)) (ext : MaskRow α → List α)
+    (h : ∀ r ∈ rows, r.Wf T) (hext : ∀ r ∈ rows, (ext r).length = k) :
+    padMaskedCore value (T + k) (rows.map (fun r => ⟨r.x ++ ext r, r.mask ++ List.replicate k false⟩))
+      = (padMaskedCore value T rows).map
+          (fun p => (p.1.map (fun row => row ++ List.replicate k value), p.2)) := by
+  rw [C09_masked value T rows h, C09_masked value (T + k)]
+  · simp only [Except.map, List.map_map]
+    congr 2
+    · apply List.map_congr_left
+      intro r hr
+      obtain ⟨hx, hm⟩ := h r hr
+      have hc : (compact r.mask r.x).length ≤ T := by
+        rw [compact_length _ _ (by omega), ← hm]; exact List.count_le_length
+      simp only [Function.comp, compact_append _ _ _ _ (hm.trans hx.symm), compact_replicate_false,
+        List.append_nil, List.append_assoc, List.append_cancel_left_eq]
+      rw [← List.replicate_add]
+      congr 1
+      omega
+    · apply List.map_congr_left
+      intro r hr
+      obtain ⟨hx, hm⟩ := h r hr
+      simp only [Function.comp, compact_append _ _ _ _ (hm.trans hx.symm), compact_replicate_false,
+        List.append_nil]
+  · intro r hr
+    simp only [List.mem_map] at hr
+    obtain ⟨r0, hr0, rfl⟩ := hr
+    obtain ⟨hx, hm⟩ := h r0 hr0
+    simp [MaskRow.Wf, hx, hm, hext r0 hr0]
+
+/-- Non-vacuity of the order / stability theorems on a two-row batch with mixed masks: the hypotheses hold,
+`C09_masked_order` yields the positions `[0, 2, 3]` / `[3]` and a sublist, and appending two masked-out
+elements (`[70, 71]` / `[80, 81]`) changes nothing but the width. An output with the selected elements of
+row 0 permuted (`[6, 0, 9]`) is NOT a sublist of the row. -/
+theorem C09_masked_order_nonvacuous :
+    trueIdx [true, false, true, true] = [0, 2, 3]
+    ∧ (∃ out lens, padMaskedCore (-1 : Int) 4
+          [⟨[0, 3, 6, 9], [true, false, true, true]⟩, ⟨[1, 2, 4, 5], [false, false, false, true]⟩] = .ok (out, lens)
+        ∧ out = [[0, 6, 9, -1], [5, -1, -1, -1]] ∧ lens = [3, 1])
+    ∧ ¬ ([(6 : Int), 0, 9]).Sublist [0, 3, 6, 9]
+    ∧ padMaskedCore (-1 : Int) 6
+          [⟨[0, 3, 6, 9, 70, 71], [true, false, true, true, false, false]⟩,
+           ⟨[1, 2, 4, 5, 80, 81], [false, false, false, true, false, false]⟩]
+        = .ok ([[0, 6, 9, -1, -1, -1], [5, -1, -1, -1, -1, -1]], [3, 1]) := by
+  have hwf : ∀ r ∈ [(⟨[0, 3, 6, 9], [true, false, true, true]⟩ : MaskRow Int),
+      ⟨[1, 2, 4, 5], [false, false, false, true]⟩], r.Wf 4 := by
+    intro r hr
+    simp at hr
+    rcases hr with rfl | rfl <;> simp [MaskRow.Wf]
+  refine ⟨by decide, ?_, by decide, ?_⟩
+  · obtain ⟨out, lens, h, _⟩ := C09_masked_order (-1 : Int) 4 _ hwf
+    refine ⟨out, lens, h, ?_⟩
+    have h' : padMaskedCore (-1 : Int) 4
+        [⟨[0, 3, 6, 9], [true, false, true, true]⟩, ⟨[1, 2, 4, 5], [false, false, false, true]⟩]
+        = .ok ([[0, 6, 9, -1], [5, -1, -1, -1]], [3, 1]) := by decide
+    rw [h'] at h
+    cases h
+    exact ⟨rfl, rfl⟩
+  · have hs := C09_masked_stable (-1 : Int) 4 2
+      [⟨[0, 3, 6, 9], [true, false, true, true]⟩, ⟨[1, 2, 4, 5], [false, false, false, true]⟩]
+      (fun r => if r.x.head? = some 0 then [70, 71] else [80, 81]) hwf (by
+        intro r hr
+        simp at hr
+        rcases hr with rfl | rfl <;> simp)
+    simpa [C09_masked (-1 : Int) 4 _ hwf, Except.map, compact] using hs
 
 /-! ### pad_masked_sequence on whole tensors: both layouts, broadcastable masks -/
 
@@ -667,7 +822,8 @@ precision and `prop * len ≤ B`, the added amount is `≤ prop * len` — and `
 EXCLUSIVE bound, as soon as `prop * len > 0`. This is the repaired code (double precision, `prop` is a
 double, `B = 2^53`). The code before `fixes/C09-random-shift-float32-bound.diff` multiplied `rnd32 prop`
 instead of `prop`, which is why it could exceed `prop * len` (next theorem). `Rounding B rnd` is a
-hypothesis, not proved of a concrete floating-point format.
+hypothesis of THIS theorem; `C09_rounding_float` proves it of the binary floating-point model `roundBits p`
+(`B = 2^p`), and `C09_shift_amount_float64` is the instance for the repaired double-precision code.
 
 Audit: the first version of this theorem assumed exactness on ALL naturals and the no-round-up clause for
 ALL positive `rnd z`; no floating-point format satisfies the former (nor IEEE subnormals the latter), so
@@ -719,6 +875,43 @@ theorem C09_shift_amount_rounded_nonvacuous :
   ⟨by decide +kernel,
    (C09_shift_amount_rounded (2 ^ 53) (fun q => q) (rounding_id _) (1 / 2) 5 (16777215 / 16777216)
       (by decide +kernel) (by decide +kernel) (by decide +kernel) (by decide +kernel) rfl).2
+      (by decide +kernel)⟩
+
+/-- **C09_rounding_float**: the hypothesis of `C09_shift_amount_rounded` is a THEOREM for binary floating
+point. `roundBits p` — round to nearest, ties to even, `p ≥ 1` significant bits, unbounded exponent; the
+executable model the driver evaluates and every run cross-checks against numpy float32 (`p = 24`) and Python
+doubles (`p = 53`) — is monotone, idempotent, exact on the naturals up to `2^p`, and a product of a rounded
+`a ≥ 1` with a representable `u < 1` never rounds back up to `a` (`a (1 - u) ≥ a 2^-p ≥ ulp(a)/2`, with
+equality only for `a` a power of two, where the spacing below `a` halves and the product is itself
+representable). Proof: `Lemmas/PadChunkFloat.lean` (binade of a rational from `Nat.log2`, `rne`). -/
+theorem C09_rounding_float (p : Nat) (hp : 1 ≤ p) : Rounding (2 ^ p) (roundBits p) :=
+  rounding_roundBits p hp
+
+/-- **C09_shift_amount_float64**: the bound for the double-precision model of the REPAIRED code with no
+hypothesis about rounding left. `prop ≥ 0` the configured proportion, `prop * len ≤ 2^53`, the draw `u` a
+float32 in `[0, 1)` (the code keeps the draws in float32: `roundBits 24 u = u`). Then the number of added
+elements `trunc (fl64 (fl64 (prop * len) * u))` is `≤ prop * len`, and `< prop * len` — the documented
+exclusive bound — whenever `prop * len > 0`. (`C09_shift_float32_counterexample` shows the float32 code had
+no such bound.) -/
+theorem C09_shift_amount_float64 (prop : Rat) (len : Nat) (u : Rat) (hp : 0 ≤ prop)
+    (hB : prop * (len : Rat) ≤ ((2 ^ 53 : Nat) : Rat)) (hu0 : 0 ≤ u) (hu1 : u < 1)
+    (hu : roundBits 24 u = u) :
+    ((shiftAmountF64 prop len u : Nat) : Rat) ≤ prop * (len : Rat)
+      ∧ (0 < prop * (len : Rat) → ((shiftAmountF64 prop len u : Nat) : Rat) < prop * (len : Rat)) :=
+  C09_shift_amount_rounded (2 ^ 53) (roundBits 53) (C09_rounding_float 53 (by norm_num)) prop len u hp hB
+    hu0 hu1 (roundBits_repr_mono 24 53 (by norm_num) (by norm_num) u hu)
+
+/-- Non-vacuity of `C09_shift_amount_float64` on the witness of the float32 defect: `prop` the double just
+below `1/7`, `len = 21`, the largest float32 draw below 1 — every hypothesis holds, double arithmetic adds
+2 elements and `2 < prop * len` (float32 arithmetic added 3). -/
+theorem C09_shift_amount_float64_nonvacuous :
+    roundBits 24 (16777215 / 16777216) = 16777215 / 16777216
+    ∧ shiftAmountF64 (2573485501354569 / 18014398509481984) 21 (16777215 / 16777216) = 2
+    ∧ ((shiftAmountF64 (2573485501354569 / 18014398509481984) 21 (16777215 / 16777216) : Nat) : Rat)
+        < (2573485501354569 / 18014398509481984 : Rat) * ((21 : Nat) : Rat) :=
+  ⟨by decide +kernel, by decide +kernel,
+   (C09_shift_amount_float64 (2573485501354569 / 18014398509481984) 21 (16777215 / 16777216)
+      (by decide +kernel) (by decide +kernel) (by decide +kernel) (by decide +kernel) (by decide +kernel)).2
       (by decide +kernel)⟩
 
 /-! ## shapes: every entry point accepts exactly the documented shapes -/
